@@ -132,6 +132,10 @@ func runShard(p *Prop, tier string, seed int64, shard, shards int, dir string, w
 			v.Kind = "hang-suspected"
 			v.Detail = D{"goroutines": truncStr(string(dump), 8000)}
 			out.hangs = append(out.hangs, v)
+			if len(out.hangs) >= 2 {
+				out.incompl = fmt.Sprintf("shard %d stopped after two cases exceeded the per-case watchdog", shard)
+				return out
+			}
 		} else {
 			v.Kind = "process-death"
 			v.Detail = D{"exit_code": code, "stderr_tail": tail(stderr.Bytes(), 4000)}
@@ -152,7 +156,7 @@ func runSingle(p *Prop, tier string, seed int64, idx int, dir string, limit time
 	var stderr bytes.Buffer
 	cmd.Stderr = &stderr
 	cmd.Stdout = &stderr
-	cmd.Env = append(os.Environ(), "GOTRACEBACK=all", "VERIF_CASE_TIMEOUT=120")
+	cmd.Env = append(os.Environ(), "GOTRACEBACK=all", "VERIF_CASE_TIMEOUT=60")
 	if p.Race {
 		cmd.Env = append(cmd.Env, "GORACE=halt_on_error=0 log_path="+base+".race")
 	}
@@ -298,6 +302,7 @@ func checkMain(propID, tier string) int {
 	var violations []Violation
 	var inconclusive []string
 	var raceLogs []string
+	hangsConfirmed := 0
 	for _, o := range outs {
 		if o.incompl != "" {
 			inconclusive = append(inconclusive, o.incompl)
@@ -335,9 +340,13 @@ func checkMain(propID, tier string) int {
 			inconclusive = append(inconclusive, r.Inconcl...)
 		}
 		violations = append(violations, o.crashes...)
-		// suspected hangs: confirm in isolation with a long budget
+		// suspected hangs: confirm in isolation with a long budget (at most two per run: each confirmation costs minutes)
 		for _, h := range o.hangs {
-			_, _, hung, note := runSingle(p, tier, seed, h.Idx, dir, 150*time.Second)
+			if hangsConfirmed >= 2 {
+				break
+			}
+			hangsConfirmed++
+			_, _, hung, note := runSingle(p, tier, seed, h.Idx, dir, 90*time.Second)
 			if hung {
 				h.Kind = "hang"
 				h.Detail["confirmation"] = note
@@ -399,7 +408,7 @@ func checkMain(propID, tier string) int {
 			continue
 		}
 		confirmed := v
-		if v.Kind != "data-race" && v.Idx >= 0 && !p.Race && v.Kind != "os-file-access-bypassing-loaders" {
+		if v.Kind != "data-race" && v.Kind != "hang" && v.Idx >= 0 && !p.Race && v.Kind != "os-file-access-bypassing-loaders" {
 			// (violations seen in the race-detector workloads depend on schedule and process history; they are
 			// reported as observed, like race reports, instead of being re-executed alone)
 			rv, died, hung, note := runSingle(p, tier, seed, v.Idx, dir, 150*time.Second)
